@@ -415,8 +415,11 @@ def check_wrap(ctx, S, c):
         if not _same(np.asarray(sol), ref["x"]):
             ctx.mismatch(sig + "/solution", c, "LS does not return SciPy's solution", ref["x"], sol)
         for k, v in c["info"].items():
-            if k not in info or not _same(info[k], ref[v]):
-                ctx.mismatch(sig + "/info/" + k, c, "info[%r] is not SciPy's %r" % (k, v), ref[v], info.get(k, "<missing>"))
+            if not isinstance(info, dict) or k not in info:
+                # LS.solve documents "optimization information (dictionary)" without naming its keys
+                ctx.observations.setdefault("LS_info_keys_absent", {})[k] = v
+            elif not _same(info[k], ref[v]):
+                ctx.mismatch(sig + "/info/" + k, c, "info[%r] is not SciPy's %r" % (k, v), ref[v], info[k])
         if not np.allclose(np.asarray(sol, float), cc, atol=1e-5):
             ctx.mismatch(sig + "/optimum", c, "returned point is not the least-squares solution", cc, sol)
     elif w == "L_BFGS_B":
@@ -454,12 +457,40 @@ def check_wrap(ctx, S, c):
             raw = stub(None, None)
             seen = seen_call
             _lbfgs_compare(ctx, dict(c, warnflag=wf), sig + "/stub/warnflag=%d" % wf, sol, info, raw)
-            okargs = (seen.get("func") is f and np.array_equal(seen.get("x0"), x0) and
-                      (seen.get("fprime") is g if c["grad"] else seen.get("fprime") is None) and
-                      bool(seen.get("approx_grad")) == (not c["grad"]) and seen.get("kwargs") == {"maxiter": 7})
+            okargs = _lbfgs_args_ok(seen, f, g if c["grad"] else None, x0, {"maxiter": 7})
             if not okargs:
-                ctx.mismatch(sig + "/stub/arguments", c, "arguments handed to fmin_l_bfgs_b are not (func, x0, fprime=gradfunc, "
-                             "approx_grad=gradfunc is None, **kwargs)", observed={k: repr(v) for k, v in seen.items()})
+                ctx.mismatch(sig + "/stub/arguments", c, "SciPy is not asked to minimise func from x0 with the user's gradient "
+                             "(approximated when gradfunc is None) and the user's keyword arguments",
+                             observed={k: repr(v) for k, v in seen.items()})
+
+
+def _lbfgs_args_ok(seen, f, g, x0, kwargs):
+    """What fmin_l_bfgs_b was asked to do, judged by behaviour (not by object identity: a wrapper may wrap the callables):
+    the objective evaluates like f, the start is x0, the gradient SciPy will use is the user's (fprime, or func returning
+    (f, g)) or an approximation exactly when none was given, and the user's keyword arguments are passed on."""
+    pts = [np.array([0.3, -1.2]), np.array([2.0, 0.5])]
+    try:
+        func, fprime, approx = seen.get("func"), seen.get("fprime"), bool(seen.get("approx_grad"))
+        if not callable(func) or not np.array_equal(np.asarray(seen.get("x0"), float), x0):
+            return False
+        vals = [func(p.copy()) for p in pts]
+        joint = all(isinstance(v, tuple) and len(v) == 2 for v in vals)        # func returns (f, g): SciPy's other convention
+        fv = [v[0] if joint else v for v in vals]
+        if not all(abs(float(a) - f(p)) <= 1e-12 * max(1.0, abs(f(p))) for a, p in zip(fv, pts)):
+            return False
+        if g is None:
+            if not approx or fprime is not None or joint:
+                return False
+        else:
+            if approx:
+                return False
+            gv = [v[1] for v in vals] if joint else ([fprime(p.copy()) for p in pts] if callable(fprime) else None)
+            if gv is None or not all(np.allclose(np.asarray(a, float), g(p), rtol=1e-12, atol=1e-12) for a, p in zip(gv, pts)):
+                return False
+        kw = seen.get("kwargs") or {}
+        return all(k in kw and kw[k] == v for k, v in kwargs.items())
+    except Exception:
+        return False
 
 
 def _lbfgs_compare(ctx, c, sig, sol, info, raw):
@@ -472,9 +503,16 @@ def _lbfgs_compare(ctx, c, sig, sol, info, raw):
             ctx.mismatch(sig + "/info/" + k, c, "info[%r] is not SciPy's %s" % (k, v), look[v], info.get(k, "<missing>"))
     succ, msg = c["warn"][min(int(d["warnflag"]), 2)]
     msg = d["task"] if msg == "task" else msg
-    if info.get("success") != succ or info.get("message") != msg:
-        ctx.mismatch(sig + "/info/success", c, "success/message do not follow the documented warnflag mapping",
-                     [succ, msg], [info.get("success"), info.get("message")])
+    if "success" not in info or bool(info["success"]) != bool(succ):
+        ctx.mismatch(sig + "/info/success", c, "success is not `1 if the minimisation has converged (warnflag 0), 0 if not`",
+                     succ, info.get("success", "<missing>"))
+    got_msg = info.get("message")
+    if not (isinstance(got_msg, (str, bytes)) and len(got_msg) > 0):
+        ctx.mismatch(sig + "/info/message", c, "message is not a description of the cause of the termination",
+                     msg, info.get("message", "<missing>"))
+    elif got_msg != msg:
+        # documented as "Description of the cause of the termination": the wording is not part of the property
+        ctx.observations.setdefault("L_BFGS_B_message_wording", {})[str(int(d["warnflag"]))] = [msg, got_msg if isinstance(got_msg, str) else repr(got_msg)]
 
 
 # ----------------------------------------------------------------------------------------------------------
